@@ -1,5 +1,6 @@
 import Mixin.Prelude.Proto
 import Mixin.Model.Membership
+import Mixin.Model.Finality
 /-! Line-protocol driver for the membership model (C10, C11; reused by the finality driver).
 
 A line is `<go part> | <model part>` or just `<model part>`: the Go harness reads what is before
@@ -144,6 +145,13 @@ def step (s : St) (t0 : List String) : St × String :=
     | some round, some ts =>
       (s, s!"ok {(consensusKeys C s.node s.chain round ts).length} {consensusThreshold C s.node ts true}")
     | _, _ => (s, "bad-op")
+  | ["c10f", round, ts, hack] =>
+    match round.toNat?, ts.toNat?, parseBool hack with
+    | some round, some ts, some hack =>
+      let cts := if hack then ts - Mixin.Finality.genFConsts.minute else ts
+      let as := Mixin.Finality.finalizationAttempts C s.node s.chain round cts
+      (s, as.foldl (fun acc a => acc ++ s!" {a.1.length} {a.2}") s!"ok {as.length}")
+    | _, _, _ => (s, "bad-op")
   | _ => (s, "bad-op")
 
 def run : IO Unit := runLoop (default : St) step
